@@ -22,6 +22,7 @@ def run(ctx, rep):
     from props import cg
     cg.rule_leaf_writers(rep, ctx.mir('ws-default')['logos_codegen'])
     cg.rule_sites(rep, ctx.mir('ws-default')['logos_codegen'], want=('C10',))
+    cg.rule_leaf_sites_complete(rep, ctx.mir('ws-default')['logos_codegen'])
     rt.rt_controls(rep, ctx, ['M-C13a'])
     rep.trusted += ['rustc nightly MIR construction', 'engines/mirfacts']
     rep.assumptions += ['user callbacks are pure functions of the matched text (the property\'s quantifier)']
